@@ -1,6 +1,6 @@
 """C15 - runtime read cache is coherent with the state and with notifications."""
 import json, os, re, copy
-import vlib, rtlib
+import vlib, rtlib, selectorlib
 
 WHATS = {"cache-incoherent-when-quiet", "cached-read-went-backwards", "lost-wakeup", "lost-wakeup-queue", "cached-ctx-not-cancelled", "cached-ctx-cancelled-spuriously"}
 
@@ -51,9 +51,11 @@ def run(ctx):
     rtlib.model_check(ctx, ["C"] if quick else ["C", "D"])
     rbehs, rout = rtlib.drive(ctx, ["C", "D"], 80 if quick else 1600, 70 if quick else 110, name="rt15", hook_prop="C15")
     rtlib.judge(ctx, rbehs, rout, WHATS, "C15")
+    # label/ID filtered cached lists at quiet: the selector algebra's table (TLC) evaluated by the runtime's cache List
+    # and judged against the algebra (the uncached List of the same table is judged in the same trace)
+    selectorlib.run(ctx, quick, sites={"cache-list"}, prefix="cached-filter/")
     ctx.assumptions += [
         "white box through the verif facade (type aliases only); black box through Runtime.CachedState() and controller reads",
-        "label/ID filtered cached lists are covered by C14's selector table at the cache site",
     ]
 
 
